@@ -49,3 +49,26 @@ pub async fn run_ls(cmd_args: CmdArgs) -> Result<(), Box<dyn Error + Sync + Send
     eprintln!("Server shutting down.");
     Ok(())
 }
+
+/// Verification hook: run the real initialize handshake and main loop on a caller-supplied
+/// connection (e.g. `lsp_server::Connection::memory()`), so a harness can drive the server
+/// in-process. Mirrors `run_ls` after the connection has been created.
+#[cfg(emmyluals_emmylua_analyzer_rust_verif)]
+pub async fn verif_serve(
+    connection: ::lsp_server::Connection,
+    cmd_args: CmdArgs,
+) -> Result<(), Box<dyn Error + Sync + Send>> {
+    let (id, params) = connection.initialize_start()?;
+    let initialization_params: InitializeParams = serde_json::from_value(params)?;
+    let server_capabilities = server_capabilities(&initialization_params.capabilities);
+    let initialize_data = serde_json::json!({
+        "capabilities": server_capabilities,
+        "serverInfo": {
+            "name": CRATE_NAME,
+            "version": CRATE_VERSION
+        }
+    });
+    connection.initialize_finish(id, initialize_data)?;
+    let async_connection = AsyncConnection::from_sync(connection);
+    main_loop::main_loop(async_connection, initialization_params, cmd_args).await
+}
